@@ -74,6 +74,9 @@ func c09Exec(op string) string {
 	default:
 		// leave the default
 	}
+	if len(op)%2 == 0 {
+		internShared(m)
+	}
 	mv := mxj.Map(m)
 	before := deepCopy(m)
 	var ls []mxj.LeafNode
@@ -199,6 +202,9 @@ func c09Gen(r *Rng, n int) []string {
 			cfg.ListInList = r.Bool()
 		}
 		m := r.RootMap(&cfg)
+		if r.P(15) {
+			r.withDuplicates(m)
+		}
 		ap := "-"
 		if r.P(30) {
 			ap = r.Pick([]string{"", "@", "attr_", "-", "#"})
